@@ -10033,7 +10033,7 @@ func NewLsTLVPrefixSID(l *uint32) *LsTLVPrefixSID {
 	return &LsTLVPrefixSID{
 		LsTLV: LsTLV{
 			Type:   LS_TLV_PREFIX_SID,
-			Length: 0,
+			Length: 8, // Flags(1) + Algorithm(1) + Reserved(2) + SID index(4)
 		},
 		Flags:     flags, // TODO: Implementation for IGP
 		Algorithm: 0,     // TODO: Implementation for IGP
